@@ -45,8 +45,11 @@ namespace igris
         flat_map &operator=(const flat_map &) = default;
         flat_map &operator=(flat_map &&) = default;
 
-        flat_map(const std::initializer_list<value_type> &init) : storage(init)
+        flat_map(const std::initializer_list<value_type> &init)
         {
+            storage.reserve(init.size());
+            for (const auto &value : init)
+                insert(value);
         }
 
         bool operator==(const flat_map &other) const
